@@ -48,12 +48,12 @@ PROPS = {
     'C01': dict(
         components=[(V, 'l1_semantics', {})] + [(V, 'u1_search', {}), (V, 'u1_iter', {}),
                     sem('lf,ll', 'find,iter,spans'), sem('lf,ll', 'find,iter', families='deep,bytes,many'),
-                    ('kani', 'pattern_raw', {}), b('pc', aspects='find,iter', mode='api')],
+                    ('kani', 'pattern_raw', {}), ('kani', 'search_leaf', {}), b('pc', aspects='find,iter', mode='api')],
         level_text='Proof (Verus, unbounded in haystack/span): the real try_find_fwd/try_find_fwd_imp/get_match return the abstract run answer find_spec ("keep the last match, stop at dead state or span end") of any automaton satisfying the Automaton contract AC, and FindIter::next/handle_overlapping_empty_match/search implement the iterator step relation of the statement (restart at previous end, empty-match rule). Kani (bounded by length): the confirmation compare of the packed prefilter (is_equal_raw/is_prefix) looks at every byte. Bounded stand-in: leftmost-first/longest definition vs the real builders on all small pattern lists, and with every prefilter variant active (long patterns, near-miss haystacks).',
         level_note=LEMMA_NOTE + COMMON_NOTE,
     ),
     'C02': dict(
-        components=[(V, 'l1_semantics', {})] + [(V, 'u1_search', {}), (V, 'u1_iter', {}),
+        components=[(V, 'l1_semantics', {}), ('kani', 'search_leaf', {})] + [(V, 'u1_search', {}), (V, 'u1_iter', {}),
                     sem('std', 'find,iter,spans'), sem('std', 'find,iter', families='deep,bytes')],
         level_text='Proof (Verus): try_find_fwd forces earliest for standard automata (dispatcher obligation) and the loop returns at the first match state (find_spec with earliest); iterator as in C01. Bounded stand-in: earliest-end/longest/first-supplied definition vs the real builders.',
         level_note=LEMMA_NOTE + COMMON_NOTE,
@@ -72,7 +72,7 @@ PROPS = {
     ),
     'C05': dict(
         components=[('kani', 'prefilter_leaf', {}), ('kani', 'prefilter_builder', {}), ('kani', 'prefilter_findin', {})] + [(V, 'u1_search', {}), (V, 'u1_overlap', {}),
-                    b('pc')],
+                    b('pc'), b('packed')],
         level_text='Proof (Verus): under the prefilter coherence contract PC both search loops return exactly what the prefilter-free abstract run returns (prefilter consulted only before the loop and in the start state with no pending match; a candidate is used only if it lies ahead; None ends the search). Bounded stand-in: PC itself (None / PossibleStartOfMatch / Match clauses) executed for every prefilter variant the real builder selects, every span of short haystacks and long haystacks, plus API transparency.',
         level_note=COMMON_NOTE,
     ),
@@ -118,12 +118,12 @@ PROPS = {
         level_note=COMMON_NOTE,
     ),
     'C14': dict(
-        components=[(V, 'u6_gates', {})] + [(V, 'u1_search', {}), sem('std,lf,ll', 'earliest,ismatch,anch,spans', families='small')],
+        components=[(V, 'u6_gates', {})] + [(V, 'u1_search', {}), sem('std,lf,ll', 'earliest,ismatch,anch,spans', families='small'), b('pc', aspects='earliest,ismatch', mode='api')],
         level_text='Proof (Verus): the earliest flag is forwarded to the loop, which returns at the first match state (find_post: with a prefilter the normal answer is also allowed). Bounded stand-in: earliest result is a genuine occurrence ending no later than the normal answer and is Some iff the normal one is; is_match iff an occurrence exists.',
         level_note=COMMON_NOTE,
     ),
     'C15': dict(
-        components=[('kani', 'search_leaf', {}), ('kani', 'pattern_raw', {}), ('kani', 'teddy_searcher', {}), (V, 'u5_packed_api', {}), (V, 'u5_rabinkarp', {}), (V, 'u3_dfa', {}), (V, 'u3_nnfa', {}), (V, 'u3_cnfa', {})] + U1 + U2 + [(V, 'u7_replace', {}), b('packed', mode='safety'), b('pc', mode='safety')],
+        components=[('kani', 'search_leaf', {}), ('kani', 'pattern_raw', {}), ('kani', 'teddy_searcher', {}), (V, 'u5_packed_api', {}), (V, 'u5_rabinkarp', {}), (V, 'u3_dfa', {}), (V, 'u3_nnfa', {}), (V, 'u3_cnfa', {})] + U1 + U2 + [(V, 'u7_replace', {}), b('packed', mode='safety'), b('pc', mode='safety'), b('replace', mode='safety')],
         level_text='Proof (Verus): every index, slice, subtraction, addition, unwrap/expect/assert!/debug_assert! in the extracted search functions is a discharged obligation; reported matches satisfy start <= end <= len and pid < pattern count (match_in lemmas). Bounded stand-in for the raw-pointer SIMD code: all packed variants on exactly-sized allocations for lengths 0..=100.',
         level_note=COMMON_NOTE + ' Raw-pointer code (Teddy, is_prefix_raw) is covered by bounded runs only until the Kani unit lands.',
     ),
